@@ -76,7 +76,7 @@ func (x *Exec) bstrOf(st *State, s string) string {
 			c.bstrDone = map[string]bool{}
 		}
 		cur := h
-		for i := 0; i < 64 && !c.bstrDone[key]; i++ {
+		for i := 0; i < 600 && !c.bstrDone[key]; i++ {
 			c.bstrDone[key] = true
 			parent, objRef := heapStep(cur)
 			if parent == "" {
